@@ -230,19 +230,28 @@ def signatures(case, note):
 def regdump_case(draw):
     nchips = draw(st.integers(0, 5))
     chips = []
+    # the same register id / instance occurs on chips of different models (and on chips without data)
+    id_pool = draw(st.lists(st.integers(0, 0xFFFFFF), min_size=1, max_size=3))
+    inst_pool = draw(st.lists(S.byte, min_size=1, max_size=2))
+    model_pool = draw(st.lists(word, min_size=1, max_size=3, unique=True))
     for _ in range(nchips):
-        model = draw(word)
+        model = draw(st.one_of(st.sampled_from(model_pool), word))
         regs = []
         for _ in range(draw(st.integers(0, 8))):
             size = draw(st.one_of(st.integers(1, 255), st.sampled_from([1, 2, 3, 7, 8, 9, 16, 255])))
-            regs.append({'id': draw(st.integers(0, 0xFFFFFF)), 'inst': draw(S.byte),
+            regs.append({'id': draw(st.one_of(st.sampled_from(id_pool), st.integers(0, 0xFFFFFF))),
+                         'inst': draw(st.one_of(st.sampled_from(inst_pool), S.byte)),
                          'data': draw(st.binary(min_size=size, max_size=size))})
         chips.append({'model': model, 'pos': draw(S.uint(16)), 'node': draw(S.byte), 'regs': regs})
     files = []
-    for ch in chips[:3]:
+    for ch in chips[:4]:
         if draw(st.integers(0, 2)):
-            files.append(draw(chip_file(ch['model'], [], sorted({r['id'] for r in ch['regs']}), [], [],
-                                        sorted({r['inst'] for r in ch['regs']}))))
+            f = draw(chip_file(ch['model'], [], sorted({r['id'] for r in ch['regs']}), [], [],
+                               sorted({r['inst'] for r in ch['regs']})))
+            # names differ per model so that an answer taken from another model's file is visible
+            for rid, v in f.get('registers', {}).items():
+                v[0] = '%s_%04X' % (v[0][:12], ch['model'] & 0xFFFF)
+            files.append(f)
     # files must have distinct model ids
     seen, uniq = set(), []
     for f in files:
